@@ -4,11 +4,14 @@ import (
 	"os"
 	"testing"
 
+	"verifsim/kad"
+	"verifsim/sess"
 	"verifsim/simcore"
 )
 
 // One binary serves the swarm-stack properties; SIM_PROP selects, legs are stack
-// specifications from the catalogue.
+// specifications from the catalogue (C08 has two legs served by the session and
+// DHT simulations).
 func TestSim(t *testing.T) {
 	prop := os.Getenv("SIM_PROP")
 	if prop == "" {
@@ -21,6 +24,23 @@ func TestSim(t *testing.T) {
 				RunC01(st, tier, leg, logOn, res)
 			case "C04":
 				RunC04(st, tier, leg, logOn, res)
+			case "C08":
+				switch leg {
+				case "session":
+					// the adversarial-transport simulation of C02/C03: only crashes count here
+					sess.RunAdv("C08", st, tier, "active", logOn, res)
+					var keep []simcore.Violation
+					for _, v := range res.Violations {
+						if v.Class == "panic" {
+							keep = append(keep, v)
+						}
+					}
+					res.Violations = keep
+				case "dht":
+					kad.RunC08DHT(st, tier, leg, logOn, res)
+				default:
+					RunC08(st, tier, leg, logOn, res)
+				}
 			case "C09":
 				RunC09(st, tier, leg, logOn, res)
 			case "C10":
